@@ -1,22 +1,28 @@
-N = {"quick": 250, "thorough": 2500}
+N = {"quick": 400, "thorough": 4000}
 EXHAUSTIVE = {"quick": False, "thorough": True}
 RULE = ("each case = one real System built by the real SystemBuilder (build + init) on a current-thread tokio runtime with a paused clock: "
         "feed mode iter / stream / not set, audit on / off / not set, initial trading state on / off / not set, 1-3 spot instruments on a mocked "
-        "exchange (initial balances chosen so that part of the orders is rejected) and in 35 % of the cases one more instrument on a second exchange "
-        "WITHOUT execution configuration; a never-ending market stream owned by the harness; then 1-5 (thorough 1-8) segments of 0-3 ops out of "
-        "{mkt (1-3 trades, half of them asking the strategy for an order), mktre, call open (1-2 requests, client order ids from a pool of 4), "
-        "call cancel, call close <filter>, call cancel_orders <filter>, call trading on|off, take_audit}, 80 % of the segments closed by `settle` "
-        "(await quiescence by tokio yields only, virtual time never moves); in 16 % of the cases a request for the exchange without execution link "
-        "(the engine stops on the unrecoverable error) directly followed by `settle`, after which further calls, shutdown/abort (they panic) or "
-        "`join` follow; the case ends with shutdown (55 %) or abort, 10 % add a call after the handle was consumed. Thorough additionally enumerates "
-        "every op sequence of length <= 3 over 7 symbols for {iter,stream} x {audit on,off} (1 600 cases). A case is distinct by the SHA-1 of its op "
-        "lines and non-trivial when the implementation's observation blocks differ")
+        "exchange (latency 0 / 50 / 200 ms of virtual time; initial balances chosen so that part of the orders is rejected) and in 35 % of the cases "
+        "one more instrument on a second exchange WITHOUT execution configuration; a never-ending market stream owned by the harness; then 1-5 "
+        "(thorough 1-8) segments of 0-3 ops out of {mkt (1-3 trades, half of them asking the strategy for an order), mktre, call open (1-2 requests, "
+        "client order ids from a pool of 4), call cancel, call close <filter>, call cancel_orders <filter>, call trading on|off, take_audit}, half of "
+        "the segments closed by `settle` (await quiescence by tokio yields only), 30 % by `sleep 10|50|100|250` (tokio::time::advance, then settle), "
+        "20 % not at all; in 16 % of the cases a request for the exchange without execution link (the engine stops on the unrecoverable error) directly "
+        "followed by `settle`, after which further calls, shutdown/abort (they panic) or `join` follow; the case ends with shutdown (55 %) or abort, "
+        "10 % add a call after the handle was consumed. Thorough additionally enumerates every op sequence of length <= 3 over 8 symbols (market trade "
+        "with reaction, trading on, trading off, open, close, cancel_orders, settle, sleep 50) for {iter,stream} x {audit on,off} at latency 50 ms "
+        "(2 340 cases). A case is distinct by the SHA-1 of its op lines and non-trivial when the implementation's observation blocks differ")
 ASSUMPTIONS = [
-    "current-thread tokio runtime with a paused clock; mock exchange latency 0 and zero fees: virtual time never moves during a case (timeouts, latencies and reconnection back-off are not exercised)",
-    "the harness awaits only in `settle` (until everything sent so far has been processed and every reaction has come back) and in shutdown/abort/join; "
-    "between two awaits only handle calls reach the feed (they are synchronous sends), so which events a segment contains is determined by the script; "
-    "the ORDER in which one segment's account events reach the engine is the scheduler's: the account events of a segment are compared as a sorted "
-    "multiset and the generator avoids nothing - the compared engine state (orders, position side/quantity, price, trading state) does not depend on that order",
+    "current-thread tokio runtime with a paused clock; the harness never relies on auto-advance: virtual time moves only in `sleep` ops "
+    "(mock exchange latency 0 / 50 / 200 ms; the 1 s request timeout of the execution manager and the reconnection back-off are never reached)",
+    "the harness awaits only in `settle` / `sleep` (until everything sent so far has been processed and every reaction that is due has come back) "
+    "and in shutdown / abort / join; between two awaits only handle calls reach the feed (synchronous sends), so WHICH events a segment contains is "
+    "determined by the script; the ORDER in which one segment's account events reach the engine is the scheduler's: they are compared as a sorted "
+    "multiset - that the resulting engine does not depend on that order is a theorem (account_order_irrelevant + reachable_state_ok), under the "
+    "hypothesis that fills carry positive quantities (the generator only requests positive quantities)",
+    "within one segment the engine sees: the segment's handle events (call order), then the market events pushed, then account events; the model's "
+    "scheduler produces the same grouping (handle sends are synchronous, forwarders need at least one task switch; market items need one hop, "
+    "execution responses six)",
     "quiescence detection needs a count of the account events entering the system's account channel: the SystemBuild's public account_channel is "
     "tapped by a counting relay task (one extra FIFO hop in front of the system's own account forwarder)",
     "the engine's clock is a recording EngineClock (Engine::process hands every event to the clock first): this is how the harness sees what reached "
@@ -24,9 +30,11 @@ ASSUMPTIONS = [
     "EngineFeedMode::Iterator runs the engine on a real blocking thread (spawn_blocking) that spins on try_recv: WHEN that thread runs relative to "
     "the runtime thread is not controlled; the harness synchronises with it only through the processed-event count",
     "a request for an exchange without execution link is always directly followed by `settle` (otherwise whether the next handle call panics is a thread race in Iterator mode)",
-    "requests address the exchange their instrument lives on, or the exchange without execution link (a request routed to the mock exchange for an instrument it does not list makes the ExecutionManager task panic; not exercised)",
-    "strategy decisions depend on recorded market trades only; DefaultRiskManager (approves everything)",
+    "requests address the exchange their instrument lives on, or the exchange without execution link (a request routed to the mock exchange for an "
+    "instrument it does not list makes the ExecutionManager task panic; not exercised); strategy reactions are only requested for instruments of the mocked exchange",
+    "strategy decisions depend on recorded market trades only; DefaultRiskManager (approves everything); mock exchange with zero fees",
     "FeedEnded is not reachable while the System value lives (handle and forwarders hold feed senders); it is modelled only in the four runner functions",
+    "position arithmetic beyond (side, net quantity) is C02's; balances inside the engine state are not compared (C09's)",
 ]
 SOURCE_FILES = ["barter/src/system/mod.rs", "barter/src/system/builder.rs", "barter/src/system/config.rs", "barter/src/shutdown.rs",
                 "barter/src/engine/run.rs", "barter/src/engine/mod.rs", "barter/src/engine/audit/mod.rs",
@@ -43,5 +51,19 @@ CLAIM = False
 TECHNIQUE = ("Lean 4: the running system as a scheduler-driven transition system (handle calls, two forwarders, engine runner, one FIFO feed) over an "
              "ABSTRACT engine and execution side; invariants by induction over arbitrary action lists; the four runner functions of engine/run.rs "
              "modelled one by one and proved equal; link of the audit stream to the C10 replica theorem; correspondence with the real System under a paused tokio clock")
-LEVEL_TEXT = ("Proof (sub-check of C20). See lean/BarterModel/Props/C20S.lean.")
-LEVEL_NOTE = ("Trusted: Lean kernel; axioms propext/Classical.choice/Quot.sound only; the hand-written model; harness (recording clock, counting relay on the account channel), driver, orchestrator.")
+LEVEL_TEXT = ("Proof (sub-check of C20). Lean theorems (lean/BarterModel/Props/C20S.lean) over a model of the running System as a scheduler-driven transition "
+              "system (handle calls, market forwarder, account forwarder, engine runner, one FIFO feed; engine and execution side abstract), for EVERY action list: "
+              "builder_defaults / builder_setters / builder_last_call_wins / init_audit; the four runners of engine/run.rs modelled one by one: feed_modes_agree "
+              "(Iterator and Stream runner return the same output on every feed), audit_mode_only_adds_ticks, runner_closed_form, stopped_state_is_runner_output "
+              "(a stopped system is in exactly the state the selected runner function returns on the channel content); commands_once_in_order, applied_in_send_order, "
+              "earlier_calls_applied_before, command_sees_trading_state (every handle event reaches Engine::process at most once, in call order; a trading_state() call made "
+              "before a command is applied before it); engine_is_fold, result_is_fold, result_on_shutdown, nothing_after_stop, refines_spec (shutdown()/abort() return the "
+              "built engine fed exactly the processed history: all handle events sent, in order, Shutdown last; nothing behind it is ever processed); abort_eq_shutdown "
+              "(abort differs from shutdown in nothing the engine or the feed can see); audit_enabled_stream / audit_disabled_nothing / take_audit_once; "
+              "audit_replica_reproduces_engine (snapshot + ticks through the C10 replica reproduce the engine, the C10 hypotheses discharged for this system); "
+              "call_after_stop_panics / close_after_stop_panics / join_after_stop; streams_in_order, quiescent_everything_processed, requests_reach_exchange_in_order; "
+              "trading_is_last_update; account_order_irrelevant + reachable_state_ok (the account events of one segment commute on the whole engine state). "
+              "The model is tied to the code by driving the real System (SystemBuilder::build + init, mock exchange, both feed modes, both audit modes) under a paused tokio clock on every run.")
+LEVEL_NOTE = ("Trusted: Lean kernel; axioms propext/Classical.choice/Quot.sound only; the hand-written model; harness (recording clock, counting relay on the account channel, "
+              "synchronous replay of the recorded feed through a fresh real Engine for `own`, real StateReplicaManager for `replica_eq`), driver, orchestrator. Not exhibited by the model: "
+              "when the blocking engine thread of the Iterator feed mode runs (its try_recv spin), OS timing, wall-clock time, tokio's task order inside one await of the harness.")
